@@ -401,6 +401,17 @@ func ParseNameAddrPVal(h HdrT, buf []byte, offs int, pfrom *PFromBody) (int, Err
 					pfrom.state = fbNewPossibleParam
 				}
 				setFromParamVal(buf, pfrom) // param without value
+			case ',':
+				if multipleValsOk(h) {
+					// whitespace between the param name and ',':
+					// the value ends at the param name end
+					retOkErr = ErrHdrMoreValues
+					n = i
+					crl = 1
+					i = pfrom.pend
+					goto endOfHdr
+				}
+				return i, ErrHdrBadChar
 			default:
 				// no other char allowed after a param name token
 				// (the whitespace was already skipped in fb*ParamName)
@@ -494,6 +505,17 @@ func ParseNameAddrPVal(h HdrT, buf []byte, offs int, pfrom *PFromBody) (int, Err
 					pfrom.state = fbNewPossibleParam
 					setFromParamVal(buf, pfrom)
 				}
+			case ',':
+				if multipleValsOk(h) {
+					// whitespace between the param value and ',':
+					// the value ends at the param value end
+					retOkErr = ErrHdrMoreValues
+					n = i
+					crl = 1
+					i = pfrom.vend
+					goto endOfHdr
+				}
+				return i, ErrHdrBadChar
 			default:
 				// no other char allowed after a param value token
 				return i, ErrHdrBadChar
